@@ -191,7 +191,17 @@ func (w *WAL) Read() ([]types.Entry, error) {
 		// data length
 		var n int64
 		if err = binary.Read(reader, binary.LittleEndian, &n); err != nil {
+			if errors.Is(err, io.EOF) || errors.Is(err, io.ErrUnexpectedEOF) {
+				// incomplete length field, see below
+				break
+			}
 			return nil, err
+		}
+		// The wal is append only and every Write is synced before it is acknowledged:
+		// an incomplete record can only be the tail of a Write that was interrupted by a crash,
+		// it was never acknowledged and is ignored.
+		if n < 0 || n > int64(reader.Len()) {
+			break
 		}
 
 		// data body
